@@ -395,6 +395,26 @@ func sequential(r *ev.Run, sd sysDef, u *uni.Universe, rng *rand.Rand, maxRoots 
 			differ("registry-changed", rt, resolveShared(rt))
 		}
 	}
+	// Data updated in place: a client loaded with the earlier state of the
+	// registry is resolved against, then every version of the universe proper
+	// is added to it again (AddVersion replaces the stored record and its
+	// requirements), and the answers must be those of a client loaded with the
+	// universe alone. (The earlier state holds a subset of the versions and the
+	// same package names, so nothing has to be taken away.)
+	{
+		u0 := earlierState(u, rng)
+		evolving := u0.Client(nil)
+		res2 := sd.mk(evolving)
+		for _, rt := range roots {
+			res2.Resolve(context.Background(), rt) // what it saw before the update must not matter
+		}
+		u.AddAllTo(evolving)
+		r.Count("in_place_updates:"+sd.name, 1)
+		for _, rt := range roots {
+			differ("client-updated-in-place", rt, run(func(resolve.Client) resolve.Resolver { return res2 }, evolving, budget, rt))
+			differ("client-updated-in-place:new-resolver", rt, run(sd.mk, evolving, budget, rt))
+		}
+	}
 	// Cache saturation (PyPI, one universe in three): the resolver's bounded
 	// caches are filled beyond their capacity by a foreign resolution, so that
 	// the roots' own markers and constraints are inserted through the eviction
@@ -668,9 +688,23 @@ func runChild(r *ev.Run) {
 		r.Violation("C05:concurrent:concurrent-map-access", "runtime fatal error in the race child: "+tail(res.Output, 1200), nil)
 		done = true
 	}
+	crashed := false
 	if !done {
-		r.Inconclusive("race child did not finish: " + tail(res.Output, 600))
-		return
+		// The child died. When it died inside deps.dev code while goroutines
+		// used the resolvers the documented way, that is the observation
+		// (a nil dereference in a structure two goroutines were rewriting, for
+		// instance); the race reports collected up to then are judged below.
+		out := "\n" + res.Output
+		if i := strings.LastIndex(out, "\npanic: "); i >= 0 && strings.Contains(out[i:], "deps.dev/") {
+			r.Violation("C05:concurrent:crash", "the race child panicked inside deps.dev code under concurrent use: "+head(out[i:], 1500), nil)
+			crashed = true
+		} else if i := strings.LastIndex(out, "\nfatal error: "); i >= 0 && strings.Contains(out[i:], "deps.dev/") {
+			r.Violation("C05:concurrent:crash", "runtime fatal error in the race child inside deps.dev code: "+head(out[i:], 1500), nil)
+			crashed = true
+		} else {
+			r.Inconclusive("race child did not finish: " + tail(res.Output, 600))
+			return
+		}
 	}
 	seen := map[string]bool{}
 	lib, harnessOnly := 0, 0
@@ -692,8 +726,17 @@ func runChild(r *ev.Run) {
 	if harnessOnly > 0 {
 		r.Inconclusive(fmt.Sprintf("%d race reports with harness frames only (monitor bug)", harnessOnly))
 	}
-	r.Gate("concurrent:resolutions", 200)
-	r.Gate("concurrent:distinct_completion_orders", 30)
+	if !crashed {
+		r.Gate("concurrent:resolutions", 200)
+		r.Gate("concurrent:distinct_completion_orders", 30)
+	}
+}
+
+func head(s string, n int) string {
+	if len(s) > n {
+		return s[:n]
+	}
+	return s
 }
 
 func tail(s string, n int) string {
